@@ -67,7 +67,7 @@ PROPERTIES: dict[str, dict] = {
         "assumptions": COMMON_ASSUMPTIONS + ["CTfile V3000 atom keyword list (spec.py)"],
     },
     "C07": {
-        "rules": ["R-KWEXACT", "R-ZERO", "R-ORDERING", "R-SPLICE", "R-TOKENS", "R-SIBKEYS", "R-PROV", "R-ALIAS", "R-WRAP", "R-INDEXSPACE", "R-GRAPHBUILD", "R-DISPATCH", "R-SYMZ"],
+        "rules": ["R-KWEXACT", "R-ZERO", "R-ORDERING", "R-SPLICE", "R-TOKENS", "R-SIBKEYS", "R-PROV", "R-ALIAS", "R-WRAP", "R-INDEXSPACE", "R-GRAPHBUILD", "R-DISPATCH", "R-SYMZ", "R-BONDTYPE"],
         "technique": "partial evaluation of token predicates over the spec's keyword set + heap-based taint analysis of the reader + CFG ordering rules",
         "explanation": "Keyword recognizers accept exactly their keyword; zero-valued explicit defaults never reach atom records; splicing precedes "
                        "tokenising and bond endpoints are validated before return; D/T pass through the shared helper; per-bond dictionaries are not shared.",
@@ -75,7 +75,7 @@ PROPERTIES: dict[str, dict] = {
         "assumptions": COMMON_ASSUMPTIONS + ["CTfile V3000 atom keyword list (spec.py)"],
     },
     "C08": {
-        "rules": ["R-COLS", "R-CHGTABLE", "R-SIBKEYS", "R-KILL", "R-SUPERSEDE", "R-ZERO", "R-PROV", "R-INDEXSPACE", "R-GRAPHBUILD", "R-FLOW-SERIAL", "R-FLOW-CANON", "R-DISPATCH", "R-SYMZ"],
+        "rules": ["R-COLS", "R-CHGTABLE", "R-SIBKEYS", "R-KILL", "R-SUPERSEDE", "R-ZERO", "R-PROV", "R-INDEXSPACE", "R-GRAPHBUILD", "R-FLOW-SERIAL", "R-FLOW-CANON", "R-DISPATCH", "R-SYMZ", "R-BONDTYPE"],
         "technique": "column-span checking via provenance labels and partial evaluation + kill/def analysis of the property block",
         "explanation": "Every column slice equals its CTfile field (atom, bond, counts and the affine property-entry layout for entries 1..8), the "
                        "charge-code table is the format's, both readers write the same keys, symbol-derived masses are never cleared, CHG/RAD lines "
@@ -84,7 +84,7 @@ PROPERTIES: dict[str, dict] = {
         "assumptions": COMMON_ASSUMPTIONS + ["CTfile V2000 column layout and charge codes (spec.py)"],
     },
     "C09": {
-        "rules": ["R-LEN", "R-WRAP", "R-FIELDS", "R-NUMTEXT", "R-FLOW-SERIAL", "R-FLOW-CANON", "R-ORDERING", "R-INDEXSPACE", "R-GRAPHBUILD"],
+        "rules": ["R-LEN", "R-WRAP", "R-FIELDS", "R-NUMTEXT", "R-FLOW-SERIAL", "R-FLOW-CANON", "R-ORDERING", "R-INDEXSPACE", "R-GRAPHBUILD", "R-BONDTYPE"],
         "technique": "interval analysis of emitted line lengths + writer/reader constant and field-position agreement",
         "explanation": "Sound interval proof that every appended line is <= 79 characters; wrap prefix / offset / continuation character agree between "
                        "writer and reader; the writer's line templates put fields where the reader subscripts them.",
@@ -137,7 +137,7 @@ PROPERTIES: dict[str, dict] = {
         "assumptions": COMMON_ASSUMPTIONS,
     },
     "C15": {
-        "rules": ["R-NOREC", "R-GRAMREC", "R-FAILSITES", "R-BIJ"],
+        "rules": ["R-NOREC", "R-GRAMREC", "R-FAILSITES", "R-BIJ", "R-NOBONDS"],
         "technique": "call-graph cycle detection + grammar rule-graph acyclicity + enumeration of rejecting constructs in the pipeline",
         "explanation": "No input-dependent recursion in tucan code reachable from the public entry points; parse depth is bounded by the number of "
                        "grammar rules because the rule graphs (EBNF, G4, generated ATN) are acyclic; the pipeline contains no raise / size guard, and its one "
